@@ -202,6 +202,13 @@ func runC05(c *core.Ctx) {
 	c.Doc("fold-accumulator", 1, "Fold: accumulator starts from m.Empty(), one Combine(acc,x) per element, one send of acc then close")
 	c.Doc("stage-found", 11, "anchors (exported stage constructors) resolved")
 
+	// the monoid a caller builds with the library's own constructors is the one Fold folds with: From(e, op).Empty() is e and
+	// its Combine is op itself - not a method of the instance type that shadows the promoted one (shared with C10 / C17)
+	c.Doc("monoid-literal", 2, "monoid.From/FromOp build {Semigroup: combine, empty: empty}")
+	c.Doc("monoid-empty", 1, "Empty returns the stored element")
+	c.Doc("monoid-combine-promoted", 1, "Combine resolves to the stored semigroup's Combine")
+	monoidRules(c)
+
 	type chk func(c *core.Ctx, s *Stage)
 	table := []struct {
 		name string
